@@ -1,0 +1,40 @@
+//go:build verif
+
+package extrude
+
+// Contracts for the deductive checks in /verif (comment-only; compiled only with -tags verif).
+
+// ---- C01 breadth: frame-only contracts ("modifies nothing": every store / append / copy / map write
+// targets memory allocated by the call itself; no functional postcondition is claimed here) ----
+//@ func directionOfPoints frameonly
+//@   props C01
+//@ func polygon frameonly
+//@   props C01
+//@ func Polygon frameonly
+//@   props C01
+//@ func Circle.Extrude frameonly
+//@   props C01
+//@ func CircleAlongSpline.Extrude frameonly
+//@   props C01
+//@ func directionsOfExtrusionPoints frameonly
+//@   props C01
+//@ func DirectionsOfPoints frameonly
+//@   props C01
+//@ func directionsOfLinePoints frameonly
+//@   props C01
+//@ func Line frameonly
+//@   props C01
+//@ func PathPoints frameonly
+//@   props C01
+//@ func PathPoints2 frameonly
+//@   props C01
+//@ func makeShape frameonly
+//@   props C01
+//@ func Shape frameonly
+//@   props C01
+//@ func ClosedShape frameonly
+//@   props C01
+//@ func ProjectFace frameonly
+//@   props C01
+//@ func GetPlaneOuterPoints frameonly
+//@   props C01
